@@ -16,6 +16,7 @@ func checkC05(c *Ctx) {
 		"(S6) Cron.stop/remove/add are created unbuffered (the API call returns only when the scheduler has taken the request). " +
 		"(S7) the timer is armed with entries[0].Next minus a clock reading refreshed after the last wait, entries being sorted (sort.Sort on Cron.entries) with no later mutation; the comparator puts zero Next last and orders by Before; an entry received on Cron.add gets Next from its own schedule and a fresh clock reading and is appended. " +
 		"Also: a sync.WaitGroup counting jobs must not be waited on by a detached goroutine while a restart can Add to it (documented reuse restriction, panics); before its first wait the scheduler recomputes Next of every existing entry; the blocking drain of the timer channel is unreachable with the timer the wake-up case consumed; no path starts one entry twice in one wake-up iteration. " +
+		"(S9) every time handed to Entry.Schedule.Next (initial pass, add case, wake-up bookkeeping) derives from X.In(Cron.location) through now()/phis/parameters. " +
 		"NOT decided: once-per-activation over all histories and interleavings, timing ('never early' only as a guard on every start), behaviour under clock jumps, the values Entries() returns beyond 'Prev is the instant that was compared', the chain wrappers' semantics, user Schedule implementations."
 	r.Assumptions = append(r.Assumptions,
 		"interface calls (Schedule.Next, Logger, clock.Clock, clock.Timer) do not touch Cron.entries, Entry.Next/Prev or the Cron's channels",
@@ -60,6 +61,8 @@ func checkC05(c *Ctx) {
 	a.checkArming()
 	a.checkAddCase()
 	a.checkDrain()
+	r.Rule("C05.S9-next-in-location", "every time reaching Entry.Schedule.Next in the scheduler was converted with In(Cron.location)", 4)
+	a.checkLocation()
 
 	c.Fixture("c05act", func(fp *Prog, fr *Report) {
 		fa := newC05Base(fp, fr, fp.ModPath, "", []string{"entries"})
